@@ -32,7 +32,7 @@ Lemma close_run_cacheable es rs : cacheable (CCloseRun es rs) = false. Proof. vm
 Definition devonly (x : obs) : bool := match x with ODev _ _ => true | _ => false end.
 Lemma devonly_devdoc o : forallb devonly o = true -> forallb devdoc o = true.
 Proof. induction o as [|x o IH]; cbn; [reflexivity|]. intros H. apply andb_true_iff in H. destruct H as [H1 H2]. destruct x; try discriminate H1. cbn. apply IH. exact H2. Qed.
-Lemma devonly_final_events o : forallb devonly o = true -> final_events o = [] /\ stops o = [].
+Lemma devonly_final_events o : forallb devonly o = true -> final_events o = [] /\ rundocs o = [].
 Proof.
   induction o as [|x o IH]; cbn; [split; reflexivity|]. intros H. apply andb_true_iff in H. destruct H as [H1 H2].
   destruct x; try discriminate H1. cbn. apply IH. exact H2.
@@ -463,7 +463,7 @@ Lemma finalize_done (s : st) r pend :
     finalize s r pend = (s', o) /\
     pc s' = PcDone (match pend with Some e => TRaise e | None => r end) /\ state s' = Idle /\
     (main_err s' = main_err s /\ cache s' = cache s) /\
-    final_events o = [] /\ stops o = [] /\
+    final_events o = [] /\ rundocs o = [] /\
     no_raise o = res_ok (match pend with Some e => TRaise e | None => r end).
 Proof.
   intros Hpl Hbs Hsh Hal. unfold RE.finalize.
@@ -475,7 +475,7 @@ Proof.
   cbn [flat_map app].
   do 2 eexists. split; [reflexivity|]. simp_st. split; [reflexivity|]. split; [reflexivity|]. split; [split; [exact K13 | exact C1]|].
   destruct (devonly_final_events _ Q2) as [F2 G2]. destruct (devonly_final_events _ Q3) as [F3 G3].
-  rewrite !final_events_app, !stops_app, F2, F3, G2, G3. split; [reflexivity|]. split; [reflexivity|].
+  rewrite !final_events_app, !rundocs_app, F2, F3, G2, G3. split; [reflexivity|]. split; [reflexivity|].
   rewrite !no_raise_app, (devdoc_no_raise _ (devonly_devdoc _ Q2)), (devdoc_no_raise _ (devonly_devdoc _ Q3)).
   destruct pend as [e|]; [destruct e | destruct r as [v|e]; [|destruct e]]; reflexivity.
 Qed.
